@@ -9,3 +9,5 @@ import MypyVerif.Props.C12Reach
 import MypyVerif.Props.C12Bind
 import MypyVerif.Props.C12Fold
 import MypyVerif.Props.C11
+import MypyVerif.Props.C10
+import MypyVerif.Props.C15
